@@ -13,6 +13,7 @@ Ref == CASE Ev.fn = "md5" -> M!MD5(Ev.inp)
          [] Ev.fn = "m128" -> Murmur128(Ev.inp)
          [] Ev.fn = "fnv32" -> Fnv32(Ev.inp)
          [] Ev.fn = "fnv64" -> Fnv64(Ev.inp)
+         [] Ev.fn = "md5rel" -> Ev.mem         \* a large file range: equal to the in-memory digest of the same bytes
          [] OTHER -> <<-1>>
 Ok == Ev.fn \notin {"crash", "timeout"} /\ LET r == Ref IN Len(Ev.outs) > 0 /\ \A i \in 1..Len(Ev.outs) : Ev.outs[i] = r
 Init == l = 1
